@@ -866,6 +866,12 @@ impl<A: Elem, B: Elem> VecPair<A, B> {
                         }
                         out.extend(flags.into_iter().map(|f| (1, f as u32)));
                         drop(c);
+                        // Serialize (feature `serde`): the same JSON as std's vector
+                        let json = {
+                            let _g = harness_scope();
+                            serde_json::to_string(v).unwrap_or_else(|e| format!("error {}", e))
+                        };
+                        out.push((2, crate::rng::fnv(&json) as u32));
                         Ret::Elems(out)
                     }};
                 }
